@@ -853,14 +853,14 @@ def sliding_window_view(x, window_shape, axis=None, automatic_rechunk=True):
         ensure_minimum_chunksize(d + 1, c) for d, c in zip(depths, x.chunks)
     )
     if automatic_rechunk:
-        safe_chunks = [
-            s if d != 0 else c for d, c, s in zip(depths, x.chunks, safe_chunks)
-        ]
+        # the axes without overlap may be split further; start from chunks
+        # without empty blocks (a window of size 1 does not fit into one)
+        input_chunks = tuple(safe_chunks)
         # safe chunks is our output chunks, so add the new dimensions
         safe_chunks.extend([(w,) for w in window_shape])
         max_chunk = reduce(mul, map(max, x.chunks))
         new_chunks = _calculate_new_chunksizes(
-            x.chunks,
+            input_chunks,
             safe_chunks.copy(),
             {i for i, d in enumerate(depths) if d == 0},
             max_chunk,
